@@ -14,6 +14,7 @@ import z3
 from pvx import field, loopcut
 from pvx.claims import deg, eq_spec, flat, full_domain
 from pvx.harness import Ob
+from pvx.npproxy import alias_update as _alias_update
 from pvx.loader import load, rdomain
 from pvx.sym import RSym, unwrap, Concretization
 from pvx.zdomain import ZCtx, ZSym, _z, zmin, zmax, OPAQUE, Opaque, Stop, ObligationFailed, explore_z
@@ -300,10 +301,10 @@ def scenario(py, code, mode, with_inc):
     def init_cov(*a, **k):
         return Tok("P0")
     ns = dict(F.__dict__)
-    ns.update(__pvx=hooks, np=PNp(w), pd=OPAQUE, kalman=KS, transform=OPAQUE, earth=OPAQUE, Rotation=OPAQUE, util=cap,
+    _alias_update(ns, F.__dict__, dict(__pvx=hooks, np=PNp(w), pd=OPAQUE, kalman=KS, transform=OPAQUE, earth=OPAQUE, Rotation=OPAQUE, util=cap,
               inertial_sensor=None, InsErrorModel=lambda wa=True: em, _initialize_covariance=init_cov,
               _compute_error_propagation_matrices=process, _compute_feedforward_result=lambda *a, **k: (OPAQUE,) * 6,
-              _interpolate_pva=interp, min=zmin, max=zmax, len=lambda x: n_states_tok if (isinstance(x, Tok) and x.kind == "P0") else zlen2(x))
+              _interpolate_pva=interp, min=zmin, max=zmax, len=lambda x: n_states_tok if (isinstance(x, Tok) and x.kind == "P0") else zlen2(x)))
     fn, _ = loopcut.instantiate(F.run_feedforward_filter, code, ns)
     status = "ok"
     try:
